@@ -1,5 +1,6 @@
 import LlgoVerif.Lemmas.Sema
 import LlgoVerif.Lemmas.AtomicValue
+import LlgoVerif.Lemmas.Mutex
 import LlgoVerif.Spec.Atomics
 import LlgoVerif.Gen.C11Atomics
 /-!
@@ -326,5 +327,50 @@ example : ∃ s, AValue.Reachable (AValue.init [[.store (1, 5)], [.load, .load],
       some ⟨⟨.real 1, 5, [(1, 5)], [(1, 5)], some 0⟩,
         [⟨.done, [], 1⟩, ⟨.done, [], 2⟩, ⟨.sLoad (1, 7), [], 0⟩]⟩ := by decide
   exact ⟨_, AValue.run_reachable _ _ _ .refl hr, rfl, rfl⟩
+
+/-! ## llgo's own Mutex (`runtime/_patch/internal/sync/mutex.go`): `Model/Mutex.lean`
+
+For any number of threads, any sequence of `Lock`/`TryLock`/`Unlock` calls, every interleaving of the accesses to the
+state word, any clock readings (normal and starvation mode, hand-off included) and any answers of `runtime_canSpin`. -/
+
+/-- the number of threads between the return of `Lock`/`TryLock` and `Unlock`'s `Add` equals the locked bit -/
+theorem mutex_owners_eq_locked_bit (n : Nat) (s : Mutex.St) (h : Mutex.Reachable (Mutex.init n) s) :
+    Mutex.total Mutex.own s.ths = s.w.locked.toNat :=
+  (Mutex.inv0_reachable h).own
+
+/-- mutual exclusion: at most one thread holds the mutex -/
+theorem mutex_mutual_exclusion (n : Nat) (s : Mutex.St) (h : Mutex.Reachable (Mutex.init n) s) :
+    Mutex.total Mutex.own s.ths ≤ 1 := by
+  rw [mutex_owners_eq_locked_bit n s h]; cases s.w.locked <;> simp
+
+/-- two distinct threads are never both inside -/
+theorem mutex_no_two_owners (n : Nat) (s : Mutex.St) (h : Mutex.Reachable (Mutex.init n) s) (i j : Nat) (t u : Mutex.Th)
+    (hij : i ≠ j) (hi : s.ths[i]? = some t) (hj : s.ths[j]? = some u) : ¬ (t.pc = .owner ∧ u.pc = .owner) := by
+  intro ⟨h1, h2⟩
+  have := Mutex.total_ge2 Mutex.own s.ths i j t u hij hi hj
+  have := mutex_mutual_exclusion n s h
+  simp [Mutex.own, h1, h2] at *
+  omega
+
+/-- the hypotheses are satisfiable by a non-trivial run: three threads, thread 0 locks, thread 1 registers as a waiter -/
+example : ∃ s, Mutex.Reachable (Mutex.init 3) s ∧ s.w.locked = true ∧ s.w.waiters = 1 := by
+  let e : Mutex.Env := ⟨false, 5, false⟩
+  refine ⟨_, .step 1 e (.step 1 e (.step 1 e (.step 0 e .refl (by rfl)) (by rfl)) (by rfl)) (by rfl), ?_, ?_⟩ <;> rfl
+
+/-- what one step does to the counted quantities (owners, wake-up tokens), the step lemma of the token invariant
+    `Mutex.Inv`: tokens (permits + threads carrying one) = woken bit + (starving ∧ ¬locked), starving excludes woken,
+    and the hand-off `Add` finds `starving ∧ ¬locked ∧ waiters ≠ 0` -/
+theorem mutex_step_accounting {w : Mutex.Word} {sema : Nat} {e : Mutex.Env} {t : Mutex.Th} {w' : Mutex.Word} {sm' : Nat}
+    {t' : Mutex.Th} {l : Mutex.Lbl} (h : Mutex.stepTh w sema e t = .ok w' sm' t' l)
+    (hsw : w.starving = true → w.woken = false) (hloc : Mutex.LocOk w t)
+    (hown : Mutex.own t ≤ w.locked.toNat) (htok : sema + Mutex.tok t ≤ Mutex.rhs w) :
+    Mutex.own t' + w.locked.toNat = Mutex.own t + w'.locked.toNat ∧
+    sm' + Mutex.tok t' + Mutex.rhs w = sema + Mutex.tok t + Mutex.rhs w' ∧
+    (w'.starving = true → w'.woken = false) ∧ Mutex.LocOk w' t' :=
+  Mutex.stepTh_delta h hsw hloc hown htok
+
+/-- non-trivial instance: the hand-off `Add` of a woken waiter in starvation mode (word `starving, 2 waiters`) -/
+example : Mutex.stepTh ⟨false, false, true, 2⟩ 0 ⟨false, 0, false⟩ ⟨.handoffAdd false, ⟨false, false, true, 2⟩, false, true, 1⟩ =
+    .ok ⟨true, false, true, 1⟩ 0 ⟨.owner, ⟨false, false, true, 2⟩, false, true, 1⟩ (.add 20 13) := by rfl
 
 end LlgoVerif.C11
